@@ -404,6 +404,12 @@ def check(ctx, want="C12"):
             j = make_job(ctx, proto, [2, 3, 1, 4][k % 4], ctx.seed * 1000 + 500 + k, 40 if thorough else 24)
             j["mirror"] = mode
             jobs.append(j)
+    # the receive loop ahead of the workers with mirroring on: 1064 datagrams received, the datagram queue full and the loop blocked
+    # handing the next one over - every datagram a worker takes is still copied to the mirror
+    for proto in ("ipfix", "sflow"):
+        j = make_job(ctx, proto, 2, ctx.seed * 1000 + 540, 1064)
+        j["templates"], j["mirror"], j["backlog"], j["poison"], j["lazy"] = [], "on", True, [], 2
+        jobs.append(j)
     # mirroring switched on after the templates were learnt (start-up window, templates from the cache file), exporters as the
     # default wildcard socket reports them (IPv4-mapped, 16 octets) and as an IPv4 socket does (4 octets)
     for k, form in enumerate(["mapped", "plain"]):
@@ -450,7 +456,7 @@ def check(ctx, want="C12"):
             if nexp <= 1000:
                 raise vlib.Infra("the queue-full run of %s has only %d datagrams that yield a message" % (proto, nexp))
             ctx.extra.setdefault("producer_queue_full_runs", []).append({"proto": proto, "datagrams_yielding_a_message": nexp, "published": npub})
-        rows.append({"ev": "Reset"})
+        rows.append({"ev": "Reset", "mir": 1 if job.get("mirror") == "on" and not job.get("mirror_late") else 0})
         index.append((job, None))
         for k, e in enumerate(r["events"]):
             rows.append(e)
@@ -474,7 +480,7 @@ def check(ctx, want="C12"):
                 "Mar": "a worker encoded a message that is not its own datagram's",
                 "Consume": "the message the producer took from the queue is not (any more) the message that was queued",
                 "Deq": "a worker dequeued something else than the head of the datagram queue",
-                "End": "at the end the decoded counter / the set of published messages does not match the datagrams processed"}.get(e and e["ev"], "event not explainable")
+                "End": "at the end the decoded counter / the set of published messages does not match the datagrams processed - or, with mirroring enabled and its queue never full, not every datagram a worker took was copied to the mirror queue"}.get(e and e["ev"], "event not explainable")
         ctx.violation("%s pipeline (%d workers, seed %d): %s; first unexplainable event: %s"
                       % (job["proto"], job["workers"], job["seed"], what, json.dumps(e)),
                       {"proto": job["proto"], "workers": job["workers"], "seed": job["seed"], "event": e,
